@@ -60,7 +60,7 @@ THEOREMS = [
     "calls_noninterference", "multiref_per_call_safe", "multiref_shared_refuted",
     "clone_independent", "clone_keeps_original",
     "no_class_level_writes", "measured_footprint_no_class_level", "binding_cells_untouched",
-    "labelled_plan_is_schedule",
+    "labelled_plan_is_schedule", "memo_cells_monotone", "measured_memo_writes_monotone",
     "clone_lookup_total", "clone_lookup_unguarded_refuted",
 ]
 
@@ -104,12 +104,20 @@ WSDL = ("""<?xml version='1.0' encoding='UTF-8'?>
      <xsd:element name="sku" type="xsd:string"/><xsd:element name="n" type="xsd:int"/></xsd:sequence></xsd:complexType></xsd:element>
    <xsd:element name="findItemsResponse"><xsd:complexType><xsd:sequence>
      <xsd:element name="item" type="tns:Item" minOccurs="0" maxOccurs="unbounded"/></xsd:sequence></xsd:complexType></xsd:element>
+   <xsd:element name="bulk"><xsd:complexType><xsd:sequence>
+     <xsd:element name="tag" type="xsd:string"/><xsd:element name="n" type="xsd:int"/></xsd:sequence></xsd:complexType></xsd:element>
+   <xsd:element name="bulkResponse"><xsd:complexType><xsd:sequence>
+     <xsd:element name="items"><xsd:complexType><xsd:sequence>
+       <xsd:any minOccurs="0" maxOccurs="unbounded" processContents="lax"/>
+     </xsd:sequence></xsd:complexType></xsd:element></xsd:sequence></xsd:complexType></xsd:element>
   </xsd:schema>
  </wsdl:types>
  <wsdl:message name="echoPersonIn"><wsdl:part name="parameters" element="tns:echoPerson"/></wsdl:message>
  <wsdl:message name="echoPersonOut"><wsdl:part name="parameters" element="tns:echoPersonResponse"/></wsdl:message>
  <wsdl:message name="findItemsIn"><wsdl:part name="parameters" element="tns:findItems"/></wsdl:message>
  <wsdl:message name="findItemsOut"><wsdl:part name="parameters" element="tns:findItemsResponse"/></wsdl:message>
+ <wsdl:message name="bulkIn"><wsdl:part name="parameters" element="tns:bulk"/></wsdl:message>
+ <wsdl:message name="bulkOut"><wsdl:part name="parameters" element="tns:bulkResponse"/></wsdl:message>
  <wsdl:message name="rEchoPersonIn"><wsdl:part name="p" type="tns:Person"/></wsdl:message>
  <wsdl:message name="rEchoPersonOut"><wsdl:part name="result" type="tns:Person"/></wsdl:message>
  <wsdl:message name="rGetItemIn"><wsdl:part name="sku" type="xsd:string"/><wsdl:part name="n" type="xsd:int"/></wsdl:message>
@@ -117,6 +125,7 @@ WSDL = ("""<?xml version='1.0' encoding='UTF-8'?>
  <wsdl:portType name="DocPT">
   <wsdl:operation name="echoPerson"><wsdl:input message="tns:echoPersonIn"/><wsdl:output message="tns:echoPersonOut"/></wsdl:operation>
   <wsdl:operation name="findItems"><wsdl:input message="tns:findItemsIn"/><wsdl:output message="tns:findItemsOut"/></wsdl:operation>
+  <wsdl:operation name="bulk"><wsdl:input message="tns:bulkIn"/><wsdl:output message="tns:bulkOut"/></wsdl:operation>
  </wsdl:portType>
  <wsdl:portType name="RpcPT">
   <wsdl:operation name="rEchoPerson"><wsdl:input message="tns:rEchoPersonIn"/><wsdl:output message="tns:rEchoPersonOut"/></wsdl:operation>
@@ -127,6 +136,8 @@ WSDL = ("""<?xml version='1.0' encoding='UTF-8'?>
   <wsdl:operation name="echoPerson"><soap:operation soapAction="echoPerson" style="document"/>
    <wsdl:input><soap:body use="literal"/></wsdl:input><wsdl:output><soap:body use="literal"/></wsdl:output></wsdl:operation>
   <wsdl:operation name="findItems"><soap:operation soapAction="findItems" style="document"/>
+   <wsdl:input><soap:body use="literal"/></wsdl:input><wsdl:output><soap:body use="literal"/></wsdl:output></wsdl:operation>
+  <wsdl:operation name="bulk"><soap:operation soapAction="bulk" style="document"/>
    <wsdl:input><soap:body use="literal"/></wsdl:input><wsdl:output><soap:body use="literal"/></wsdl:output></wsdl:operation>
  </wsdl:binding>
  <wsdl:binding name="RpcLitB" type="tns:RpcPT">
@@ -165,6 +176,9 @@ KINDS = {
     "lit-item": ("RpcSvc", "LitPort", "rGetItem", "items"),
     "enc-echo": ("RpcSvc", "EncPort", "rEchoPerson", "person"),
     "enc-item": ("RpcSvc", "EncPort", "rGetItem", "items"),
+    # memo stress: the reply is an xsd:any list of n elements with n distinct, call-specific tag names
+    # (one generated class each): any size bound on a class / type cache is reached within one call
+    "doc-bulk": ("DocSvc", "DocPort", "bulk", "bulk"),
 }
 KIND_LIST = ["doc-echo", "doc-echo2", "doc-find", "lit-echo", "lit-item", "enc-echo", "enc-item"]
 KIND_NO = {k: i for i, k in enumerate(KIND_LIST)}
@@ -277,6 +291,10 @@ def serve(location, message):
         return _envelope('<n:rEchoPersonResponse soapenv:encodingStyle="%s" xmlns:n="%s"><result href="%s"/>'
                          '</n:rEchoPersonResponse>%s' % (ENC, TNS, r, "".join(e.refs)))
     kids = {c.name: c.own_text() for c in op.elements()}
+    if op.name == "bulk":
+        tag, n = kids.get("tag", "b"), int(kids.get("n", "0") or 0)
+        return _envelope('<n:bulkResponse xmlns:n="%s"><n:items>%s</n:items></n:bulkResponse>' % (
+            TNS, "".join("<n:%s_%d>v%d</n:%s_%d>" % (tag, i, i, tag, i) for i in range(n))))
     sku, n = kids.get("sku", ""), int(kids.get("n", "0") or 0)
     items = _items_for(sku, n)
     if style == "doc":
@@ -391,6 +409,8 @@ class World(object):
                 p.home = None
             p.tag = list(spec.get("tags", []))
             return (p,)
+        if fam == "bulk":
+            return (spec["tag"], spec["n"])
         return (spec["sku"], spec["n"])
 
     def invoke(self, client, kind, spec):
@@ -796,7 +816,8 @@ class Footprint(object):
             if (oid, field, new) in seen_final:
                 continue          # the same write, seen earlier
             d = self.describe_write(g, cl, oid, field, old, new)
-            d["idem"] = False     # did not persist: not a memo fill
+            if d["kind"] != 3 or not d["loc"].startswith(("(LResolved", "(LFactory")):
+                d["idem"] = False     # did not persist: not a memo fill
             d["transient"] = True
             transient.append(d)
         return {"writes": writes, "transient": transient, "msg_reads": reads, "result": res,
@@ -807,6 +828,10 @@ class Footprint(object):
         loc, what = cl.loc(oid, field)
         empty = old is None or old == ("v", "None")
         idem = False
+        # 0 fill of an absent cell, 1 overwrite with an equivalent value,
+        # 2 overwrite with a different value, 3 deleted (del / pop / clear / eviction)
+        kind = 3 if new is None else (0 if empty else 2)
+        old_obj = g.objs.get(old[1]) if (old is not None and old[0] == "o") else None
         o = g.objs[oid]
         par = g.parent.get(oid) or (None, None)
         pobj = g.objs.get(par[0]) if par[0] is not None else None
@@ -816,6 +841,8 @@ class Footprint(object):
             stored = pobj.resolved_cache.get(key)
             idem = again[0] == "ok" and stored is not None and id(stored) == new[1] and \
                 same_schema_object(again[1], stored)
+            if kind == 2 and old_obj is not None and same_schema_object(old_obj, stored):
+                kind = 1
         elif loc.startswith("(LProxy") and new is not None and field == ("attr", "proxy"):
             # re-assigned by every call with the proxy setting of the transport's own options
             idem = o.proxy is o.options.proxy and self.vid_of(o.proxy) == new
@@ -842,7 +869,12 @@ class Footprint(object):
                     cls, key = v, k
             if isinstance(cls, type):
                 idem = key == ".".join((cls.__name__, str(cls.__bases__)))
-        return {"loc": loc, "what": what, "empty": empty, "idem": idem, "transient": False}
+                if kind == 2 and isinstance(old_obj, type) and old_obj.__name__ == cls.__name__ \
+                        and old_obj.__bases__ == cls.__bases__:
+                    kind = 1
+        if kind >= 2 and loc.startswith(("(LResolved", "(LFactory")):
+            idem = False
+        return {"loc": loc, "what": what, "empty": empty, "idem": idem, "kind": kind, "transient": False}
 
 
 def _vid_of(v):
@@ -864,8 +896,20 @@ def same_schema_object(a, b):
         return False
 
 
+_LOC_TAGS = {"LOpt": 0, "LMsgTx": 1, "LMsgRx": 2, "LResolved": 3, "LFactory": 4, "LMrNodes": 5,
+             "LMrCatalog": 6, "LProxy": 7, "LClassAttr": 8, "LBinding": 9, "LOther": 10}
+
+
+def ow_code(d):
+    """[loc tag; a; b; empty; idem; kind] (Model.v: OW / loc_of_code)."""
+    parts = d["loc"].strip("()").split()
+    nums = [1 if x == "true" else 0 if x == "false" else int(x.replace("%N", "")) for x in parts[1:]]
+    nums = (nums + [0, 0])[:2]
+    return [_LOC_TAGS[parts[0]], nums[0], nums[1], int(d["empty"]), int(d["idem"]), d.get("kind", 0)]
+
+
 def ow_term(d):
-    return "(mkow %s %s %s)" % (d["loc"], cbool(d["empty"]), cbool(d["idem"]))
+    return "(mkow %s %s %s %s)" % (d["loc"], cbool(d["empty"]), cbool(d["idem"]), cN(d.get("kind", 0)))
 
 
 # ---------------------------------------------------------------------------
@@ -1100,8 +1144,10 @@ class Scheduler(object):
     of its events (None: until it finishes); afterwards the unfinished
     threads run to completion in index order."""
 
-    def __init__(self, world, thunks, plan, lines=False, timeout=30.0, trackers=None):
+    def __init__(self, world, thunks, plan, lines=False, timeout=30.0, trackers=None, focus=None):
         self.w = world
+        self.focus = focus       # set of (file, function): only their events are preemption points
+        self.focus_cache = {}
         self.trackers = trackers
         self.timeline = []       # (thread, label) in the order the threads really ran
         self.tag_cache = {}
@@ -1149,6 +1195,14 @@ class Scheduler(object):
                 self.trackers[tid].started = True
         if self.abort or self.budget is None:
             return
+        if self.focus is not None:
+            code = frame.f_code
+            inside = self.focus_cache.get(code)
+            if inside is None:
+                inside = self.focus_cache[code] = \
+                    (os.path.basename(code.co_filename), code.co_name) in self.focus
+            if not inside:
+                return
         self.budget -= 1
         if self.budget > 0:
             return
@@ -1235,12 +1289,15 @@ class Scheduler(object):
 # generators
 # ---------------------------------------------------------------------------
 
+BULK_N = [1500]        # distinct generated tag names per stress reply (thorough: 6000)
 NAMES = ["ann", "bob", "c<d", "d&e", "eve é", "f'g", "", "h  i"]
 STREETS = ["1 a st", "2 b<c", "", "long " * 6]
 
 
 def gen_spec(rng, kind, tag):
     """Arguments of one call; `tag` makes them distinct per thread."""
+    if KINDS[kind][3] == "bulk":
+        return {"tag": "b" + "".join(ch for ch in str(tag) if ch.isalnum()), "n": BULK_N[0]}
     if KINDS[kind][3] == "person":
         return {"name": "%s-%s" % (rng.choice(NAMES), tag), "age": rng.randrange(0, 120),
                 "home": (rng.choice(STREETS) + tag, rng.randrange(0, 99999)) if rng.random() < 0.6 else None,
@@ -1415,7 +1472,7 @@ class Runner(object):
         s.run()
         return s.count[0], names
 
-    def run_schedule(self, setup, plan, cold, lines=False, clients=None):
+    def run_schedule(self, setup, plan, cold, lines=False, clients=None, focus=None, prefill=None):
         """Execute one schedule on real threads.  Returns per-thread outcome
         dicts and scheduler details."""
         w = self.w
@@ -1424,8 +1481,14 @@ class Runner(object):
             if not cold:
                 for c, kind, spec in setup.threads:
                     run_impl(w.invoke(clients[c], kind, spec))
+        for c, kind, spec in setup.threads:
+            self.solo(setup.effective(c), kind, spec)      # (cached) before the caches are emptied
         if cold:
             clear_memo_caches(w, clients)
+        if prefill is not None:
+            # drive the process-wide class cache up (to whatever bound it may have) with names
+            # that no thread of the schedule uses
+            run_impl(w.invoke(clients[0], "doc-bulk", prefill))
         solos = [self.solo(setup.effective(c), kind, spec) for c, kind, spec in setup.threads]
         thunks = [w.invoke(clients[c], kind, spec) for c, kind, spec in setup.threads]
         if self.labels is None:
@@ -1435,7 +1498,7 @@ class Runner(object):
             kids = [(r, i is not None) for r, i in reply_kids(w, so["reply"])]
             trackers.append(Tracker(w, self.labels, self.intern, kids, len(so["hrefs"])))
         n0 = len(w.log)
-        s = Scheduler(w, thunks, plan, lines=lines, trackers=trackers)
+        s = Scheduler(w, thunks, plan, lines=lines, trackers=trackers, focus=focus)
         results = s.run()
         entries = w.log[n0:]
         outs = []
@@ -1518,6 +1581,9 @@ def run(ck):
             fp_plan.append((kind, "creds", "orig"))      # add_password on the shared transport
         fp_plan.append((kind, "plain", "clone"))
         fp_plan.append((kind, rng.choice(VARIANT_LIST), "clone2"))
+    # memo stress last (its thousands of generated classes make every later snapshot larger)
+    fp_plan.append(("doc-bulk", "plain", "orig"))
+    BULK_N[0] = 1500 if quick else 6000
     transient_every = 40 if quick else 10
     transient_budget = 6 if quick else 10 ** 9
     for n, (kind, variant, how) in enumerate(fp_plan):
@@ -1538,19 +1604,23 @@ def run(ck):
         for mode in ("cold", "warm"):
             if mode == "cold":
                 clear_memo_caches(world, clients)
-            spec = gen_spec(rng, kind, "f%d" % n)
+            spec = gen_spec(rng, kind, "f%d%s" % (n, mode))
             te = transient_every if (mode == "cold" and n < transient_budget) or not quick else 0
             if not quick and mode == "cold" and how == "orig" and variant == "plain":
                 te = 1          # a snapshot at every call/return event inside suds
+            if kind == "doc-bulk":
+                # cold: the cache starts empty and a bound is reached inside the call (intermediate
+                # snapshots); warm: it holds the previous reply's names, all other names are new
+                te = 5000 if mode == "cold" else 0
             m = runner.fp.measure(clients, which, kind, spec, transient_every=te)
-            term = "(mkfp %s %s %s %s)" % (
-                cN(m["client_no"]), clist([ow_term(d) for d in m["writes"]], "obs_write"),
-                clist([ow_term(d) for d in m["transient"]], "obs_write"), cN(m["msg_reads"]))
+            term = "(FP %s %s %s %s)" % (
+                cN(m["client_no"]), nnlist(ow_code(d) for d in m["writes"]),
+                nnlist(ow_code(d) for d in m["transient"]), cN(m["msg_reads"]))
             fp_cases.append(term)
             fp_meta.append({"kind": kind, "variant": variant, "how": how, "mode": mode, "spec": spec,
                             "client_no": m["client_no"],
-                            "writes": [(d["what"], d["empty"], d["idem"]) for d in m["writes"]],
-                            "transient": [(d["what"], d["empty"], d["idem"]) for d in m["transient"]],
+                            "writes": [(d["what"], d["empty"], d["idem"], d["kind"]) for d in m["writes"]],
+                            "transient": [(d["what"], d["empty"], d["idem"], d["kind"]) for d in m["transient"]],
                             "msg_reads": m["msg_reads"], "result": m["result"][0]})
             ck.seen(("fp", kind, variant, how, mode, json.dumps(spec, sort_keys=True)),
                     nontrivial=len(m["writes"]) > 0)
@@ -1564,7 +1634,8 @@ def run(ck):
             if m["result"][0] != "ok":
                 ck.failing_input("C13:call-fails-solo", "a solo %s call raises %s" % (kind, m["result"][1]),
                                  {"kind": kind, "variant": variant, "spec": spec, "mode": "footprint"})
-    res_fp = ck.run_cases("fp", PRE, "fp_case", fp_cases, ["fp_agrees", "fp_spec_ok"])
+    world.suds.sudsobject.Factory.cache.clear()      # harness hygiene after the memo stress
+    res_fp = ck.run_cases("fp", PRE, "fp_case", fp_cases, ["fp_agrees", "fp_spec_ok"], shard=20)
     bad_fp_spec = set(res_fp["fp_spec_ok"])
     bad_fp_agree = set(res_fp["fp_agrees"])
     suspicious_fp = sorted(bad_fp_spec | bad_fp_agree)
@@ -1660,7 +1731,12 @@ def run(ck):
 def fp_offenders(m):
     bad = []
     own = "of client %d" % m.get("client_no", 0)
-    for what, empty, idem in m["writes"] + m["transient"]:
+    for what, empty, idem, kind in m["writes"] + m["transient"]:
+        if ("resolved_cache" in what or "Factory.cache" in what) and kind >= 2:
+            bad.append(what + (" (memo entry DELETED)" if kind == 3 else " (memo entry replaced by a different value)"))
+            continue
+        if ("resolved_cache" in what or "Factory.cache" in what) and kind == 1:
+            continue
         if "messages[" in what:
             if not what.endswith(own):
                 bad.append(what + " (ANOTHER client's history)")
@@ -1685,6 +1761,8 @@ def fp_class(m):
         return "C13:message-history-shared"
     if "MultiRef" in text:
         return "C13:shared-multiref-state"
+    if "memo entry" in text:
+        return "C13:memo-cell-evicted"
     return "C13:shared-state-written"
 
 
@@ -1942,6 +2020,7 @@ class Recorder(object):
         self.samples = []
         self.key_intern_tab = Interner()
         self.setup_keys = {}
+        self.prefill = None
 
     def key_intern(self, text):
         return self.key_intern_tab("href", text)
@@ -1981,11 +2060,14 @@ class Recorder(object):
                 stack = s.switches[0][3] if s.switches else []
                 if "multiref.py" in where or any(fr.startswith("multiref.py:") for fr in stack):
                     cls = "C13:shared-multiref-state"
+                elif o["res"] == 3 and where.startswith(("sudsobject.py:subclass", "sxbasic.py:resolve")):
+                    cls = "C13:memo-cell-evicted"
                 elif o["res"] in (3, 4):
                     cls = "C13:call-fails-under-concurrency"
             m = {"class": cls, "what": what,
                  "payload": {"mode": "schedule", "setup": setup.payload(), "plan": plan, "cold": cold,
                              "lines": lines, "label": label, "model_plan": list(s.timeline),
+                             "focus": sorted(s.focus) if s.focus else None, "prefill": self.prefill,
                              "switches": s.switches[:6], "outcomes": outs}}
             if new_case:
                 self.rep_meta.append(m)
@@ -2078,6 +2160,47 @@ def schedule_cases(ck, world, runner, rng, quick, memo_cells, suspicious_fp, fp_
             return iter([m for _, m in rec.fail_meta])
     meta = _Meta()
 
+    # --- (m) memo stress: thread A suspended at LINE granularity inside the memo-access functions
+    # while thread B decodes a reply with thousands of new class names; the process-wide class cache
+    # starts empty, or pre-filled by another such reply.  A sample always; every line when a measured
+    # footprint showed a memo entry deleted or replaced ---
+    memo_hot = any(fp_class(fp_meta[i]) == "C13:memo-cell-evicted" for i in suspicious_fp)
+
+    def memo_stress():
+        focus = {("sudsobject.py", "subclass"), ("sxbasic.py", "resolve")}
+        for sn, ka in enumerate(["doc-echo", "lit-item", "enc-echo"] if (memo_hot or not quick) else ["doc-echo"]):
+            if rec.failing() >= 3:
+                break
+            saved_n = BULK_N[0]
+            if quick and not memo_hot:
+                BULK_N[0] = 300
+            try:
+                setup = Setup("same", ["plain"], [(0, ka, gen_spec(rng, ka, "MA%d" % sn)),
+                                                  (0, "doc-bulk", gen_spec(rng, "doc-bulk", "MB%d" % sn))])
+                filler = gen_spec(rng, "doc-bulk", "MF%d" % sn)
+            finally:
+                BULK_N[0] = saved_n
+            _, names = runner.count_events(setup, 0, lines=True)
+            inside = [nm for nm in names if tuple(nm.split(":")[:2]) in focus]
+            ks = list(range(1, len(inside) + 1))
+            if quick and not memo_hot:
+                rng.shuffle(ks)
+                ks = sorted(ks[:12])
+            for k in ks:
+                if rec.failing() >= 3:
+                    break
+                plan = [(0, k), (1, None)]
+                pre = filler if k % 2 else None
+                rec.prefill = pre
+                outs, s, solos, _ = runner.run_schedule(setup, plan, True, lines=True, focus=focus, prefill=pre)
+                record(setup, plan, True, True, outs, s, solos, None,
+                       "memo stress: A suspended inside Factory.subclass / TypedContent.resolve (line granularity)")
+                rec.prefill = None
+        world.suds.sudsobject.Factory.cache.clear()
+
+    if memo_hot:
+        memo_stress()
+
     # --- (w) the refutation witness of multiref_shared_refuted on real threads:
     # thread A suspended at each step of MultiRef.process / Binding.get_reply while
     # thread B, through the same client and service, runs its whole call ---
@@ -2152,7 +2275,7 @@ def schedule_cases(ck, world, runner, rng, quick, memo_cells, suspicious_fp, fp_
     hot = []
     for i in suspicious_fp:
         k = fp_meta[i]["kind"]
-        if k not in hot:
+        if k not in hot and k in KIND_LIST:
             hot.append(k)
     for k in hot:
         for partner in ("enc-item", "enc-echo", k):
@@ -2235,6 +2358,8 @@ def schedule_cases(ck, world, runner, rng, quick, memo_cells, suspicious_fp, fp_
             ck.failing_input("C13:clone-fails", "Client.clone() raises %s" % e,
                              {"probe": "clone", "history": [], "how": "schedule scenario"})
             continue
+    if not memo_hot:
+        memo_stress()
     ck._sc_classes = rec.classes
     for key, suspended in rec.seen:
         ck.seen(key, nontrivial=suspended)
@@ -2257,8 +2382,11 @@ def replay(ck, payload):
         runner = Runner(ck, world)
         setup = Setup.from_payload(payload["setup"])
         plan = [tuple(p) for p in payload["plan"]]
+        focus = payload.get("focus")
         outs, s, solos, _ = runner.run_schedule(setup, plan, payload.get("cold", False),
-                                                lines=payload.get("lines", False))
+                                                lines=payload.get("lines", False),
+                                                focus={tuple(f) for f in focus} if focus else None,
+                                                prefill=payload.get("prefill"))
         print("threads:", [(c, k, sp) for c, k, sp in setup.threads])
         print("plan (thread, events before switching):", plan)
         print("switch points:", s.switches[:6])
